@@ -13,7 +13,7 @@ pub const VARIANT_NAMES: &[&str] =
     &["First", "Second", "Third", "WithData", "Http2Frame", "V2", "A", "Empty", "SomeLongVariantName", "Node", "Leaf", "Ok2", "Default", "Case", "IOError", "XMLDocument", "HTTPStatus"];
 pub const FIELD_NAMES: &[&str] = &[
     "id", "name", "value", "count", "user_id", "created_at", "is_active", "first_name", "a", "b2", "x", "long_field_name_here", "item_list",
-    "payload", "kind", "data", "flag", "total_count_2", "k8s_cluster", "use_2fa", "p2p_port",
+    "payload", "kind", "data", "flag", "total_count_2", "k8s_cluster", "use_2fa", "p2p_port", "x_y_offset", "r_g_b",
 ];
 /// Rust keywords usable only as raw identifiers
 pub const RAW_FIELD_NAMES: &[&str] = &[
